@@ -67,3 +67,83 @@ Print Assumptions C19_trim_space_rune_level.
 Theorem C19_fields_rune_level : forall d, fsplit d (fields d).
 Proof. exact fields_spec. Qed.
 Print Assumptions C19_fields_rune_level.
+From Coq Require Import ZArith.
+From GI Require Import Lib.GoSem Lib.GoSemExt Lib.GoSemExtFacts Imports.BuildGen Imports.TagRunes Imports.SrcFacts Gen.ImportsSrc.
+
+(* ---- the Go source itself: Gen/ImportsSrc.v is imports/build.go (matchTag, matchTags,
+   ShouldBuild, MatchFile) translated to Gallina by harness/go2coq on every run; the
+   statements below are about those translated functions, for every input.
+   [fuel] bounds loop iterations and recursion depth; Panic = a Go run-time panic. *)
+
+(* ShouldBuild, every content and tag set: Ok of the specification read with Go's own
+   rune-level tag test (range over the string, unicode.IsLetter / IsDigit from the
+   toolchain's tables); hence no panic and no exhausted bound *)
+Theorem C19_source_should_build_unicode : forall fuel content tags,
+  length content + 2 <= fuel ->
+  src_ShouldBuild fuel content tags = Ok (spec_should_build_g unicode_tag_chars content tags).
+Proof. exact src_ShouldBuild_unicode. Qed.
+Print Assumptions C19_source_should_build_unicode.
+
+Theorem C19_source_should_build_total : forall fuel content tags,
+  length content + 2 <= fuel ->
+  src_ShouldBuild fuel content tags <> Panic /\ src_ShouldBuild fuel content tags <> OutOfFuel.
+Proof. exact src_ShouldBuild_total. Qed.
+Print Assumptions C19_source_should_build_total.
+
+(* Go's tag test and the model's [tag_chars] agree wherever every byte is below 0xC9 (every
+   rune below U+0240; the model's table ends at U+024F) *)
+Theorem C19_source_tag_test_agrees : forall name,
+  below_c9 name -> unicode_tag_chars name = tag_chars name.
+Proof. exact unicode_tag_chars_below_c9. Qed.
+Print Assumptions C19_source_tag_test_agrees.
+
+(* on that domain the translated ShouldBuild is the hand-written model, failure value included,
+   and C19_should_build_spec holds of the translated function *)
+Theorem C19_source_should_build_eq : forall fuel content tags,
+  below_c9 content -> length content + 2 <= fuel ->
+  src_ShouldBuild fuel content tags = opt_res (should_build content tags).
+Proof. exact src_ShouldBuild_eq. Qed.
+Print Assumptions C19_source_should_build_eq.
+
+Theorem C19_source_should_build_spec : forall fuel content tags,
+  below_c9 content -> length content + 2 <= fuel ->
+  src_ShouldBuild fuel content tags = Ok (spec_should_build content tags).
+Proof. exact src_ShouldBuild_spec. Qed.
+Print Assumptions C19_source_should_build_spec.
+
+(* matchTag and matchTags (a recursive function: fuel bounds the depth) *)
+Theorem C19_source_match_tag_eq : forall name tags want,
+  src_matchTag name tags want = Ok (match_tag_g unicode_tag_chars name tags want)
+  /\ (below_c9 name -> src_matchTag name tags want = Ok (match_tag name tags want)).
+Proof. exact src_matchTag_both. Qed.
+Print Assumptions C19_source_match_tag_eq.
+
+Theorem C19_source_match_tags_eq : forall fuel name tags,
+  length name + 1 <= fuel ->
+  src_matchTags fuel name tags = Ok (option_ok_g unicode_tag_chars tags name)
+  /\ (below_c9 name -> src_matchTags fuel name tags = Ok (match_tags name tags)).
+Proof. exact src_matchTags_both. Qed.
+Print Assumptions C19_source_match_tags_eq.
+
+(* MatchFile, every name and tag set, no restriction (the tag test is only asked about names of
+   the regenerated OS / architecture lists): the model, hence the suffix rule *)
+Theorem C19_source_match_file_eq : forall name tags,
+  src_MatchFile name tags = Ok (match_file name tags).
+Proof. exact src_MatchFile_eq. Qed.
+Print Assumptions C19_source_match_file_eq.
+
+Theorem C19_source_match_file_spec : forall name tags,
+  src_MatchFile name tags = Ok false <-> rejected name tags.
+Proof. exact src_MatchFile_spec. Qed.
+Print Assumptions C19_source_match_file_spec.
+
+Theorem C19_source_star : forall tags, tags star = true ->
+  (forall name, src_MatchFile name tags = Ok true) /\
+  (forall fuel content, below_c9 content -> length content + 2 <= fuel ->
+     src_ShouldBuild fuel content tags =
+     Ok (forallb (fun l => match build_options l with
+                           | Some opts => existsb (fun o => forallb (star_term_ok tags) (split_on COMMA o)) opts
+                           | None => true
+                           end) (header content))).
+Proof. exact src_star. Qed.
+Print Assumptions C19_source_star.
